@@ -95,3 +95,59 @@ def gen_cast(g, gn):
     gd = corr.group(gn)
     return dict(group=gn, op="Cast", mask="-", iarg=0, flt=0, args=[corr.gen_elem(g, gd, valid=(g.r.random() < 0.6))])
 corr.CUSTOM_GEN["Cast"] = gen_cast
+
+# ---------------------------------------------------------------- constructors (C13)
+corr.OPSIG["Ctor"] = ("", 0)
+def quat_matrix_py(q):
+    x, y, z, w = q
+    return [1 - 2 * (y * y + z * z), 2 * (x * y - w * z), 2 * (x * z + w * y),
+            2 * (x * y + w * z), 1 - 2 * (x * x + z * z), 2 * (y * z - w * x),
+            2 * (x * z - w * y), 2 * (y * z + w * x), 1 - 2 * (x * x + y * y)]
+def rot_arg(g, kind):
+    """rotation argument(s) of a 3D constructor for kind 0 quaternion, 1 angle-axis, 2 rpy, 3 rotation matrix"""
+    if kind == 0:
+        return [g.unit4() if g.r.random() < 0.6 else g.nonunit4()]
+    if kind == 1:
+        th = g.angle()
+        ax = g.r.choice([[1, 0, 0], [0, 1, 0], [0, 0, 1], [Fr(3, 5), Fr(4, 5), 0], [Fr(2, 3), Fr(2, 3), Fr(1, 3)], [Fr(-2, 7), Fr(3, 7), Fr(6, 7)]])
+        ax = [Fr(x) for x in ax]
+        if g.r.random() < 0.25:    # not a unit axis: the resulting quaternion is not normalised
+            k = 1 + g.r.choice([Fr(1, 2 ** 48), Fr(-1, 2 ** 48), SQRT_EPS_D, Fr(1, 8)])
+            ax = [x * k for x in ax]
+        return [[th], ax]
+    if kind == 2:
+        return [[g.angle() * g.r.choice([1, 1, 3, 10]) for _ in range(3)]]
+    q = g.unit4(g.r.choice(["generic_pos", "generic_neg", "axis", "near_pi", "w0", "tiny", "id"]))
+    # permute so that each of the four branches of Quaternion(Matrix3) is taken
+    p = g.r.choice([[0, 1, 2, 3], [3, 1, 2, 0], [1, 3, 2, 0], [1, 2, 3, 0]])
+    q = [q[i] for i in p]
+    return [quat_matrix_py(q)]
+def gen_ctor(g, gn, asserts=False):
+    gd = corr.group(gn); mask = "1" if asserts else "0"
+    def lin(n): return [Fr(g.r.randint(-99, 99), g.r.choice([1, 2, 7])) * 2 ** g.r.choice([0, 0, 0, 20, -20]) for _ in range(n)]
+    if gn == "SO2":
+        cid = g.r.choice([0, 1, 0])
+        args = [g.unit2() if g.r.random() < 0.6 else g.nonunit2()] if cid == 0 else [[g.angle() * g.r.choice([1, 1, 3, 10])]]
+    elif gn == "SE2":
+        cid = g.r.choice([0, 1, 2])
+        if cid == 0: args = [lin(2) + [g.angle() * g.r.choice([1, 1, 3, 10])]]
+        elif cid == 1: args = [lin(2) + (g.unit2() if g.r.random() < 0.6 else g.nonunit2())]
+        else:
+            c = g.unit2(); args = [lin(2), [c[0], -c[1], c[1], c[0]]]
+    elif gn.startswith("R"):
+        cid = 0; args = [lin(gd.rep)]
+    else:
+        cid = g.r.randint(0, 3); ra = rot_arg(g, cid)
+        if gn == "SO3": args = ra
+        else:
+            args = [lin(3)] + ra
+            if gn in ("SE23", "SGal3"): args.append(lin(3))
+            if gn == "SGal3": args.append(lin(1))
+        # setters
+        if gn in ("SO3", "SE3") and g.r.random() < 0.2:
+            X = corr.gen_elem(g, gd, True); q = g.unit4() if g.r.random() < 0.5 else g.nonunit4()
+            if gn == "SE3" and g.r.random() < 0.4: cid = 11; args = [X, lin(3)]
+            else: cid = 10; args = [X, q]
+    g.note("ctor:%s:%d" % (gn, cid))
+    return dict(group=gn, op="Ctor", mask=mask, iarg=cid, flt=0, args=args)
+corr.CUSTOM_GEN["Ctor"] = gen_ctor
